@@ -14,7 +14,7 @@ func init() {
 		technique: "guarded-arithmetic abstract interpretation on go/ssa for every slice/index/wire-read of the decoders; writer/reader header layout agreement; codec-pair field coverage for the delivery and Terminated serializers; CFG rules on the dispatchers and on type-based selection (exact type before interface; nil result checked by every caller)",
 		explanation: "Decides: (1) no decoder panics or reads out of range on any input: every slice, index, big-endian read and unsafe.String view in ProtoSerializer/CBORSerializer/JSONSerializer.Deserialize, terminatedSerializer/poisonPillSerializer.Deserialize, DeliverySerializer.Deserialize, DecodeReliablePayload and frameTypeName is entailed in bounds by the dominating guards; (2) each self-describing serializer writes the header fields (widths, order) its decoder reads; (3) the composite dispatcher returns success only from a registered serializer's success edge and a non-nil error otherwise (never nil bytes with a nil error); (4) selection by type: both resolvers (client.resolveSerializer, remote.Config.Serializer) return an interface-matched entry only after every exact-type entry was ruled out, and every send-path caller checks the resolver's nil result before using it (an unsupported message yields an error); (5) the internal serializers refuse foreign messages: success is reachable only on the type-assertion / type-switch edge for their own types; (6) writer/reader field agreement for the delivery envelope (every wire field written is read, every command field is read on encode and set on decode, every oneof variant produced is handled) and for Terminated. Equality of decoded and original messages (protobuf/CBOR/JSON library behaviour, user serializers) is NOT decided.",
 		assumptions: []string{"int is 64 bits", "protobuf / CBOR / JSON library round trips and message equality", "user-registered serializers honour the Serializer contract"},
-		minObl:     130,
+		minObl:     133,
 		run:        runC25,
 	})
 }
